@@ -21,7 +21,12 @@ pub fn derived_filters(e: &MEvent) -> Vec<(String, MFilter)> {
     v.push(("author+kind".to_string(), MFilter { authors: vec![e.pubkey.clone()], kinds: vec![e.kind], ..Default::default() }));
     v.push(("time-window".to_string(), MFilter { since: Some(e.created_at), until: Some(e.created_at), ..Default::default() }));
     v.push(("kind+time-window".to_string(), MFilter { kinds: vec![e.kind], since: Some(e.created_at), until: Some(e.created_at), ..Default::default() }));
-    for t in &e.tags {
+    // (events with hundreds of tags: the first few and the last few)
+    let n = e.tags.len();
+    for (ti, t) in e.tags.iter().enumerate() {
+        if n > 12 && ti >= 4 && ti + 4 < n {
+            continue;
+        }
         if t.len() >= 2 && t[0].len() == 1 {
             let tf = MFilter { tags: vec![(t[0].clone(), vec![t[1].clone()])], ..Default::default() };
             v.push(("tag".to_string(), tf.clone()));
@@ -63,11 +68,16 @@ impl Prop for C17 {
             rebuild: 0,
             extra: 0,
             pressure: 0,
+            mass_delete: 0,
+            big: 1,
         };
         history(w, EvCfg::default(), tier.pick(25, 80)).prop_map(|ops| Case { ops }).boxed()
     }
     fn label_floors(&self) -> Vec<(&'static str, f64)> {
         vec![("removal-with-shared-tag", 0.1)]
+    }
+    fn release_fraction(&self, tier: Tier) -> f64 {
+        tier.pick(0.4, 0.5)
     }
     fn max_shrink_iters(&self) -> u32 {
         400
